@@ -16,6 +16,9 @@ CONSTANTS
   MaxUpdates = 1
   MaxCalls = 2
   NPages = 1
+  ListenOwns = TRUE
+  ResubRace = TRUE
+  GenCheck = FALSE
   ModernUnsub = FALSE
   ForeignUnsub = FALSE
   Stepwise = TRUE
